@@ -16,6 +16,24 @@ def strip_pos(msg):
     return re.sub(r"\s+", " ", msg).strip()[:120]
 
 
+def layout_change(a, b):
+    """Class of a pass-1 -> pass-2 layout change from the first differing line."""
+    ta, tb = abstract_text(a).split(), abstract_text(b).split()
+    first = ta[0] if ta else (tb[0] if tb else "")
+    np = lambda t: [x for x in " ".join(t).replace("(", " ").replace(")", " ").split()]
+    if ta != tb and np(ta) == np(tb):
+        return "parentheses %s on pass 2 in `%s ...`" % ("dropped" if len("".join(ta)) > len("".join(tb)) else "added", first)
+    if tb and ta[:len(tb)] == tb and len(ta) > len(tb):
+        return "line split after `%s` in `%s ...`" % (tb[-1], first)
+    if ta and tb[:len(ta)] == ta and len(tb) > len(ta):
+        return "lines joined after `%s` in `%s ...`" % (ta[-1], first)
+    if not ta and not tb:
+        return "blank line / whitespace"
+    if ta == tb:
+        return "indentation of `%s ...`" % first
+    return "`%s` line => `%s` line" % (ta[0] if ta else "", tb[0] if tb else "")
+
+
 def signature(pid, what, source, case, events):
     f, r, x = _ev(events, "Format"), _ev(events, "Reparse"), _ev(events, "Reformat")
     meta = case.get("meta", {}) or {}
@@ -34,7 +52,7 @@ def signature(pid, what, source, case, events):
         gained = sorted(set(k[0] for k in f.get("census_gained", [])))
         return "%s|census|%s|lost:%s|gained:%s" % (source, tag, ",".join(lost), ",".join(gained))
     if what in ("oscillation", "late_convergence") or what.startswith("second_pass"):
-        return "%s|%s|%s|%s => %s" % (source, what, tag, abstract_text(x.get("line_a", "")), abstract_text(x.get("line_b", "")))
+        return "%s|%s|%s|%s" % (source, what, tag, layout_change(x.get("line_a", ""), x.get("line_b", "")))
     if pid == "C07":
         return "%s|%s|%s|%s" % (source, what, tag, strip_pos(f.get("msg", "")))
     return "%s|%s|%s" % (source, what, tag)
